@@ -55,6 +55,8 @@ M = [
  ("rr write_to: rdlen after rdata", D + 'resource_record.rs',
   "out.write_all(&(self.rdata.len() as u16).to_be_bytes())?;\n        self.rdata.write_to(out)\n    }",
   "self.rdata.write_to(out)?;\n        out.write_all(&(self.rdata.len() as u16).to_be_bytes())?;\n        Ok(())\n    }", 'untied:rr.write'),
+ ("rr write_compressed_to: seek to the end of the stream", D + 'resource_record.rs', "out.seek(std::io::SeekFrom::Start(end))?;", "out.seek(std::io::SeekFrom::End(0))?;", 'fail:rr_write_compressed_steps'),
+ ("rr write_compressed_to: RDLENGTH from len()", D + 'resource_record.rs', "out.write_all(&((end - len_position - 2) as u16).to_be_bytes())?;", "out.write_all(&(self.rdata.len() as u16).to_be_bytes())?;", 'fail:rr_write_compressed_steps'),
  ("match_qtype: MAILB over MB MG MINFO", D + 'resource_record.rs', 'type_code == TYPE::MR || type_code == TYPE::MB', 'type_code == TYPE::MINFO || type_code == TYPE::MB', 'fail:match_qtype'),
  ("match_qtype: IXFR true", D + 'resource_record.rs', 'QTYPE::IXFR => false', 'QTYPE::IXFR => true', 'fail:match_qtype'),
  ("match_qtype: MAILA over MD MF", D + 'resource_record.rs', 'QTYPE::MAILA => type_code == TYPE::MX', 'QTYPE::MAILA => type_code == TYPE::MD || type_code == TYPE::MF', 'fail:match_qtype'),
